@@ -153,9 +153,9 @@ func repoFrames(dump, hdr string) []string {
 }
 
 // watchdog: when the running case exceeds the time budget, sample the
-// program with the CPU profiler for 3 s; the site is the innermost repository
-// function present in every sample of the case goroutine (the function that
-// owns the loop or the runaway call). Then report and exit: a goroutine cannot
+// program with the CPU profiler for 3 s; the site is the last repository
+// function of the stack prefix common to every sample of the case goroutine
+// (the function that owns the loop or the runaway call). Then report and exit: a goroutine cannot
 // be killed.
 func watchdog(budget time.Duration) {
 	for {
